@@ -22,6 +22,7 @@ import (
 	"encoding/base64"
 	"fmt"
 	"io"
+	"sort"
 	"strings"
 
 	"encoding/xml"
@@ -124,7 +125,24 @@ func withoutUnusedNamespaceDeclarations(el *etree.Element) []etree.Attr {
 	return attrs
 }
 
+// unqualifiedAttributesLast reorders, in place and throughout el's subtree, the
+// attributes of every element so that the ones in no namespace come after all others
+// (relative order otherwise kept). Attribute order carries no meaning in XML, but
+// encoding/xml matches attributes to struct fields by local name and lets the last
+// match win: ext:InResponseTo="x" would otherwise stand in for InResponseTo whenever
+// it happens to be written (or, after canonicalization, sorted) behind it.
+func unqualifiedAttributesLast(el *etree.Element) {
+	sort.SliceStable(el.Attr, func(i, j int) bool {
+		return el.Attr[i].Space != "" && el.Attr[j].Space == ""
+	})
+	for _, c := range el.ChildElements() {
+		unqualifiedAttributesLast(c)
+	}
+}
+
 func xmlUnmarshalElement(el *etree.Element, obj interface{}) error {
+	unqualifiedAttributesLast(el)
+
 	// Decode without the namespace declarations nothing uses; the element itself is
 	// left as it is (it may still have to be canonicalized for a signature check).
 	saved := el.Attr
